@@ -51,3 +51,19 @@ package unserializers
 //@   assigns \nothing
 //@   ensures [C04:unserialize:oneOf] (result1 == nil) != (result0 == nil)
 //@   ensures [C04:unserialize:complete] result1 == nil ==> result0.Metadata != nil && result0.NodeList != nil
+
+// ---------------------------------------------------------------------------
+// C01: where each attribute of an SPDX package lands in the node (reader side)
+// ---------------------------------------------------------------------------
+//@ pred spdxNodeOf(m *sbom.Node, p *v2_3.Package) = m.Id == p.PackageSPDXIdentifier && m.Type == 0 && m.Name == p.PackageName && m.Version == p.PackageVersion && m.FileName == p.PackageFileName && m.UrlHome == p.PackageHomePage && m.UrlDownload == p.PackageDownloadLocation && m.LicenseComments == p.PackageLicenseComments && m.Copyright == p.PackageCopyrightText && m.SourceInfo == p.PackageSourceInfo && m.Comment == p.PackageComment && m.Summary == p.PackageSummary && m.Description == p.PackageDescription && m.LicenseConcluded == ((p.PackageLicenseConcluded != "NOASSERTION" && p.PackageLicenseConcluded != "") ? p.PackageLicenseConcluded : "")
+
+// writer contract + reader contract ==> the scalar attributes survive (JSON layer: trusted identity on these fields)
+//@ lemma spdxPackageScalarsRoundTrip [C01]: forall p *v2_3.Package, n *sbom.Node, m *sbom.Node :: p != nil && n != nil && m != nil && serializers.spdxPkgOf(p, n) && spdxNodeOf(m, p) ==> m.Id == n.Id && m.Type == 0 && m.Name == n.Name && m.Version == n.Version && m.FileName == n.FileName && m.UrlHome == n.UrlHome && m.LicenseComments == n.LicenseComments && m.SourceInfo == n.SourceInfo && m.Comment == n.Comment && m.Summary == n.Summary && m.Description == n.Description && m.UrlDownload == (n.UrlDownload == "" ? "NOASSERTION" : n.UrlDownload) && (n.LicenseConcluded != "NOASSERTION" ==> m.LicenseConcluded == n.LicenseConcluded)
+
+//@ func SPDX23.packageToNode
+//@   props C01
+//@   inline
+//@   requires [C01:pre] p != nil
+//@   ensures [C01:spdx:node:scalars] result != nil && spdxNodeOf(result, p)
+//@   ensures [C01:spdx:node:licenseConcluded] result.LicenseConcluded == ((p.PackageLicenseConcluded != "NOASSERTION" && p.PackageLicenseConcluded != "") ? p.PackageLicenseConcluded : "")
+//@   ensures [C01:spdx:node:people] (p.PackageSupplier != nil && p.PackageSupplier.Supplier != "NOASSERTION" ==> len(result.Suppliers) == 1 && result.Suppliers[0] != nil && result.Suppliers[0].Name == p.PackageSupplier.Supplier && (result.Suppliers[0].IsOrg <==> p.PackageSupplier.SupplierType == "Organization")) && (p.PackageOriginator != nil && p.PackageOriginator.Originator != "NOASSERTION" && p.PackageOriginator.Originator != "" ==> len(result.Originators) == 1 && result.Originators[0] != nil && result.Originators[0].Name == p.PackageOriginator.Originator && (result.Originators[0].IsOrg <==> p.PackageOriginator.OriginatorType == "Organization"))
